@@ -1,6 +1,7 @@
 package props
 
 import (
+	"fmt"
 	"go/constant"
 	"go/types"
 	"sort"
@@ -56,7 +57,7 @@ func newbieOrBetterSet(p *engine.Prog) map[int64]bool {
 
 // C17 — validation outcomes follow the rules and depend only on on-chain data.
 func C17(p *engine.Prog, r *engine.Report) {
-	r.Explanation = "(R1) decision-table shape of determineNewIdentityState on all paths of its CFG: every return of a constant satisfying NewbieOrBetter (set read from that method's body) is dominated by missed==false and identity.HasDoneAllRequiredFlips()==true; with the previous status fixed to Killed, Undefined or Invite (all comparisons of identity.State resolved accordingly) only Killed/Undefined can be returned; every status of the enum has its own arm (the post-switch default is unreachable for it). (R2) ceremony inputs come from blocks only: qualification.addAnswers / epochDb.WriteEvidenceMap / WriteAnswerHash are called solely by processCeremonyTxs, whose callers are the per-period block handlers; the mempool subscriber reaches none of them; addAnswers is first-write-wins. (R3) memo soundness: every function that removes or replaces an input of ApplyNewEpoch also resets the per-height result cache epochApplyingCache. (R4) analysis A over the epoch evaluation (shared with C01). (R5) every answer map written by addAnswers is persisted by persist and restored by restore. Decides shape; does not decide score arithmetic on the boundaries."
+	r.Explanation = "(R1) decision-table shape of determineNewIdentityState on all paths of its CFG: every return of a constant satisfying NewbieOrBetter (set read from that method's body) is dominated by missed==false and identity.HasDoneAllRequiredFlips()==true; with the previous status fixed to Killed, Undefined or Invite (all comparisons of identity.State resolved accordingly) only Killed/Undefined can be returned; every status of the enum has its own arm (the post-switch default is unreachable for it). (R2) ceremony inputs come from blocks only: qualification.addAnswers / epochDb.WriteEvidenceMap / WriteAnswerHash are called solely by processCeremonyTxs, whose callers are the per-period block handlers; the mempool subscriber reaches none of them; addAnswers is first-write-wins. (R3) memo soundness: every function that removes or replaces an input of ApplyNewEpoch also resets the per-height result cache epochApplyingCache. (R4) analysis A over the epoch evaluation (shared with C01). (R5) every answer map written by addAnswers is persisted by persist and restored by restore. (R6) threshold agreement between the arms of the decision table: every return of a passing status lies behind longScore >= MinLongScore or a session-not-qualified flag, behind shortSessionScoreCheck() or noQualShort, and (Verified/Human) behind totalScore >= MinTotalScore / MinHumanTotalScore or noQualShort; exceptions are a frozen table with reasons (Zombie->Verified does not test the long score: consensus behaviour). Decides shape; does not decide score arithmetic on the boundaries."
 	r.Assumptions = []string{"block handlers run in block order on one goroutine (bus subscriber)", "score thresholds and float comparisons are not decided"}
 	consts := identityStateConsts(p)
 	nob := newbieOrBetterSet(p)
@@ -153,6 +154,10 @@ func c17R1(p *engine.Prog, r *engine.Report, consts map[int64]string, nob map[in
 		r.Check(engine.OnlyThroughPass(f, ret.Block(), gMissed), "C17-R1", key+" only if !missed", p.InstrPos(ret), "dominated by missed == false", "an identity that missed the session can be promoted or left validated ("+consts[k]+")")
 		r.Check(engine.OnlyThroughPass(f, ret.Block(), gFlips), "C17-R1", key+" only if HasDoneAllRequiredFlips", p.InstrPos(ret), "dominated by HasDoneAllRequiredFlips() == true", "an identity lacking its required flips can be promoted or left validated ("+consts[k]+")")
 	}
+	// (a') thresholds: every passing return lies behind the session thresholds or the matching
+	// "session not qualified" flag — sibling agreement between the arms of the table. Exceptions are
+	// frozen with a reason (read and confirmed, not inferred).
+	c17Thresholds(p, r, f, consts, nob, retConst)
 	// default return: reachable with every state-equality edge cut
 	cutAllEq := map[engine.Edge]bool{}
 	for _, s := range sgs {
@@ -398,4 +403,166 @@ func c17R5(p *engine.Prog, r *engine.Report) {
 	}
 	// persist is reached after every block (addBlock) and after a reset
 	r.Floor("C17-R5", 4, "2 maps x (persist, restore)")
+}
+
+// c17ThresholdExceptions: passing returns that, by long-standing consensus behaviour, do not test a
+// threshold their sibling arms test. Key: previous-status arm "->" returned status "|" threshold.
+var c17ThresholdExceptions = map[string]string{
+	"Zombie->Verified|long": "consensus behaviour since the Zombie status exists: a Zombie is restored on total and short score alone (the Human branch of the same arm does test the long score); changing it would fork the chain",
+}
+
+func c17Thresholds(p *engine.Prog, r *engine.Report, f *ssa.Function, consts map[int64]string, nob map[int64]bool, retConst func(*ssa.Return) (int64, bool)) {
+	par := map[string]ssa.Value{}
+	for _, x := range f.Params {
+		par[x.Name()] = x
+	}
+	for _, need := range []string{"longScore", "totalScore", "noQualShort", "nonQualLong"} {
+		if par[need] == nil {
+			r.Errorf("determineNewIdentityState: parameter %s not found", need)
+			return
+		}
+	}
+	minLong, ok1 := constFloat(p, "common", "MinLongScore")
+	minTotal, ok2 := constFloat(p, "common", "MinTotalScore")
+	minHuman, ok3 := constFloat(p, "common", "MinHumanTotalScore")
+	if !ok1 || !ok2 || !ok3 {
+		r.Errorf("threshold constants of package common not found")
+		return
+	}
+	near := func(a, b float64) bool { d := a - b; return d < 1e-6 && d > -1e-6 }
+	// score >= K (or its negation score < K)
+	scoreGuards := func(score ssa.Value, ks ...float64) []engine.Guard {
+		return guardsWhere(f, func(cond ssa.Value) (bool, bool, string) {
+			b, ok := cond.(*ssa.BinOp)
+			if !ok || engine.Origin(b.X) != score {
+				return false, false, ""
+			}
+			k, isK := ssaConstFloat(b.Y)
+			if !isK {
+				return false, false, ""
+			}
+			match := false
+			for _, want := range ks {
+				if near(k, want) || k > want {
+					match = true
+				}
+			}
+			if !match {
+				return false, false, ""
+			}
+			switch b.Op.String() {
+			case ">=":
+				return true, true, "score >= threshold"
+			case "<":
+				return true, false, "score >= threshold"
+			}
+			return false, false, ""
+		})
+	}
+	flagGuards := func(flag ssa.Value) []engine.Guard {
+		return guardsWhere(f, func(cond ssa.Value) (bool, bool, string) {
+			c, neg := stripNot(cond)
+			if engine.Origin(c) == flag {
+				return true, !neg, "flag set"
+			}
+			return false, false, ""
+		})
+	}
+	// shortSessionScoreCheck(): the closure reading shortScore
+	shortGuards := guardsWhere(f, func(cond ssa.Value) (bool, bool, string) {
+		c, neg := stripNot(cond)
+		call, ok := c.(*ssa.Call)
+		if !ok {
+			return false, false, ""
+		}
+		mc, ok := engine.Origin(call.Call.Value).(*ssa.MakeClosure)
+		if !ok {
+			return false, false, ""
+		}
+		fn, _ := mc.Fn.(*ssa.Function)
+		if fn == nil {
+			return false, false, ""
+		}
+		for _, fv := range fn.FreeVars {
+			if fv.Name() == "shortScore" {
+				return true, !neg, "short session check"
+			}
+		}
+		return false, false, ""
+	})
+	gNoShort := flagGuards(par["noQualShort"])
+	gNoLong := flagGuards(par["nonQualLong"])
+	if len(shortGuards) == 0 || len(gNoShort) == 0 || len(gNoLong) == 0 {
+		r.Errorf("determineNewIdentityState: threshold atoms not found (short %d, noQualShort %d, nonQualLong %d)", len(shortGuards), len(gNoShort), len(gNoLong))
+		return
+	}
+	// which arm a return belongs to: the previous-status constants whose equality edge it lies behind
+	armOf := func(ret *ssa.Return) string {
+		var names []string
+		for _, i := range engine.Ifs(f) {
+			x, y, isEq, ok := eqCond(i.Cond)
+			if !ok || !isEq {
+				continue
+			}
+			for _, pr := range [][2]ssa.Value{{x, y}, {y, x}} {
+				if k, isK := engine.ConstInt(pr[1]); isK {
+					if o, fld, okF := engine.FieldOf(engine.Origin(pr[0])); okF && o == "Identity" && fld == "State" {
+						if engine.OnlyThroughPass(f, ret.Block(), []engine.Guard{{If: i, PassTrue: true}}) {
+							names = append(names, consts[k])
+						}
+					}
+				}
+			}
+		}
+		sort.Strings(names)
+		return strings.Join(names, "/")
+	}
+	n := 0
+	seen := map[string]int{}
+	for _, ret := range engine.Returns(f) {
+		k, ok := retConst(ret)
+		if !ok || !nob[k] {
+			continue
+		}
+		arm := armOf(ret)
+		if arm == "" {
+			continue // the lacked-flips prologue returns no passing status
+		}
+		base := arm + "->" + consts[k]
+		seen[base]++
+		id := base
+		if seen[base] > 1 {
+			id = fmt.Sprintf("%s#%d", base, seen[base])
+		}
+		type th struct {
+			name   string
+			guards []engine.Guard
+			what   string
+		}
+		ths := []th{
+			{"long", append(append(scoreGuards(par["longScore"], minLong), gNoLong...), gNoShort...), "longScore >= MinLongScore, or the long (or short) session was not qualified"},
+			{"short", append(append([]engine.Guard{}, shortGuards...), gNoShort...), "shortSessionScoreCheck(), or the short session was not qualified"},
+		}
+		switch consts[k] {
+		case "Verified":
+			ths = append(ths, th{"total", append(scoreGuards(par["totalScore"], minTotal), gNoShort...), "totalScore >= MinTotalScore, or the short session was not qualified"})
+		case "Human":
+			ths = append(ths, th{"total", append(scoreGuards(par["totalScore"], minHuman), gNoShort...), "totalScore >= MinHumanTotalScore, or the short session was not qualified"})
+		}
+		for _, t := range ths {
+			n++
+			key := "determineNewIdentityState|" + id + " behind the " + t.name + " threshold"
+			if why, isEx := c17ThresholdExceptions[id+"|"+t.name]; isEx {
+				if engine.OnlyThroughPass(f, ret.Block(), t.guards) {
+					r.Bad("C17-R6", key, p.InstrPos(ret), "listed as an exception ("+why+") but the threshold is tested now: remove the exception")
+				} else {
+					r.OK("C17-R6", key, p.InstrPos(ret), "frozen exception: "+why)
+				}
+				continue
+			}
+			r.Check(len(t.guards) > 0 && engine.OnlyThroughPass(f, ret.Block(), t.guards), "C17-R6", key, p.InstrPos(ret), t.what, "an identity coming from "+arm+" is given "+consts[k]+" on a path that tests neither "+t.what+" — its sibling arms do")
+		}
+	}
+	r.Floor("C17-R6", 30, "passing returns × thresholds")
+	_ = n
 }
